@@ -563,16 +563,16 @@ def configs(ctx):
         C.append(dict(name=name, modes=modes, sample=sample, required=required, procs=procs, simulate=simulate, sample_modes=sample_modes or {}, sub={
             "NI <- NI3": "NI <- " + ni, "SelfSet <- SelfB": "SelfSet <- " + selfset, "ProcSet <- P1": "ProcSet <- " + procs, "OwSet <- OwBoth": "OwSet <- " + ow,
             "FaultSet <- FAll": "FaultSet <- " + faults, "ExtSet <- ESome": "ExtSet <- " + ext, "MaxCalls = 2": "MaxCalls = %d" % calls}))
-    add("p1-wide", "SelfAq" if q else "SelfA", "P1", "FAll", "EAll", 2, required=ACTIONS, sample_modes=dict(same=ctx.pick(0.5, 1.0), chain=ctx.pick(0.2, 1.0)))
-    add("p1-deep", "SelfQ" if q else "SelfQ2", "P1", "FAll", "ESome", 3, modes=("fresh", "same"), simulate=dict(num=400, depth=60) if q else None, sample_modes=dict(same=ctx.pick(0.5, 0.3)))
-    add("p1-sink", "SelfSink", "P1", "FCrash", "ESink", 2 if q else 3, modes=("fresh", "same"), sample_modes=dict(fresh=ctx.pick(0.5, 1.0)))
+    add("p1-wide", "SelfAq" if q else "SelfA", "P1", "FAll", "EAll", 2, required=ACTIONS, sample_modes=dict(same=0.5, chain=ctx.pick(0.2, 1.0)))
+    add("p1-deep", "SelfQ" if q else "SelfQ2", "P1", "FAll", "ESome", 3, modes=("fresh", "same"), simulate=dict(num=400, depth=60) if q else None, sample_modes=dict(same=ctx.pick(0.5, 0.2)))
+    add("p1-sink", "SelfSink", "P1", "FCrash", "ESink", 2 if q else 3, modes=("fresh", "same"), sample_modes=dict(fresh=0.5, same=ctx.pick(1.0, 0.5)))
     add("p1-batch", "SelfBatch", "P1", "FCrash", "ENone", 2, ni="NI5", modes=("fresh",) if q else ("fresh", "same"), sample=ctx.pick(250, None))
-    add("p2", "SelfQ2" if q else "SelfC", "P2", "FAll", "ESome" if q else "ENone", 2, modes=("fresh", "same"), sample=ctx.pick(220, 5000))
-    add("p1-many", "SelfMany", "P1", "FKill", "ENone", 2, modes=("fresh",), sample=ctx.pick(120, 1500))
+    add("p2", "SelfQ2" if q else "SelfC", "P2", "FAll", "ESome" if q else "ENone", 2, modes=("fresh", "same"), sample=ctx.pick(220, 2000))
+    add("p1-many", "SelfMany", "P1", "FKill", "ENone", 2, modes=("fresh",), sample=ctx.pick(120, 600))
     if not q:
-        add("p1-other", "SelfD", "P1", "FAll", "EAll", 2)
-        add("p1-long", "SelfQ", "P1", "FAll", "ESome", 4, modes=("fresh", "same"), simulate=dict(num=6000, depth=80))
-        add("p2-deep", "SelfQ2", "P2", "FRead", "ENone", 3, ow="OwNo", modes=("fresh", "same"), sample=2500)
+        add("p1-other", "SelfD", "P1", "FAll", "EAll", 2, sample_modes=dict(same=0.3, chain=0.3))
+        add("p1-long", "SelfQ", "P1", "FAll", "ESome", 4, modes=("fresh", "same"), simulate=dict(num=3000, depth=80))
+        add("p2-deep", "SelfQ2", "P2", "FRead", "ENone", 3, ow="OwNo", modes=("fresh", "same"), sample=800)
     return C
 
 
@@ -611,7 +611,7 @@ def run(ctx):
                     if sk in seen: continue
                     seen.add(sk); sweeps.append((k, cands))
             random.Random(ctx.seed).shuffle(sweeps)
-            for k, cands in sweeps[:ctx.pick(2, 12)]:
+            for k, cands in sweeps[:ctx.pick(2, 8)]:
                 tasks.append((("sweep", hashlib.sha1(k.encode()).hexdigest()[:16]), cands, dict(mode="fresh", seed=ctx.seed, logger=0, sweep=True)))
         if c["name"] == "p2":
             def pick(pred, n):
